@@ -47,11 +47,11 @@ func VerifC12_blind_factor() {
 		bl := (c.Params().BitSize + 7) / 8
 		enc = vBytesC("blind_key", bl-1, bl+1) // around the size of n: values below and above n
 	} else {
-		enc = vBytesC("blind_key", 1, vBound("C12_blind_len", 3, 20))
+		enc = vBytesC("blind_key", 1, vBound("C12_blind_len", 3, 10))
 	}
 	bk, err := CreateKey(c, enc)
 	vAssume(err == nil)
-	ctx := vBytesC("context", 0, vBound("C12_ctx_len", 2, 6))
+	ctx := vBytesC("context", 0, vBound("C12_ctx_len", 2, 4))
 
 	got, err := BlindPublicKeyWithContext(c, &priv.PublicKey, bk, ctx)
 	vAssert(err == nil, "blinds")
